@@ -142,11 +142,14 @@ func lspOffset(text string, line, char int) int {
 	if char < 0 {
 		char = 0
 	}
-	// walk UTF-16 units within the line
+	// walk UTF-16 units within the line (the line ends before its "\n" or "\r\n")
 	end := strings.IndexByte(text[off:], '\n')
 	lineEnd := len(text)
 	if end >= 0 {
 		lineEnd = off + end
+		if lineEnd > off && text[lineEnd-1] == '\r' {
+			lineEnd--
+		}
 	}
 	u := 0
 	i := off
